@@ -182,7 +182,7 @@ def run(ctx):
     rng = ctx.rng
     n = ctx.scale(400, 6000)
     scripts = ["honest", "flip-client-hello", "flip-server-hello", "foreign-root", "resigned", "other-session", "wrong-token",
-               "other-key-challenge", "dup-reorder", "tofu", "pinned-other", "trunc-ext", "early-app", "no-answer", "stacked"]
+               "other-key-challenge", "dup-reorder", "tofu", "pinned-other", "trunc-ext", "early-app", "no-answer", "stacked", "early-send"]
     cases, outputs, logs = [], {}, {}
     for i in range(n):
         script = scripts[i % len(scripts)] if i < 3 * len(scripts) else rng.choice(scripts + ["flip-server-hello"] * 4)
